@@ -119,9 +119,34 @@ TEXT["C09"] = dict(ref="DESIGN.md 4 C09", technique="TLC model checking of the h
     note=NOTE + "Abstract crypto (signatures cannot be forged without the key). A ticket is a static secret: captured tickets are valid by the nature of the method and not counted as replays. In-process "
     "peers without RequireLocalAuth are trusted under the authid they name (documented router policy). The ABORT reason and whether a silent peer is told ABORT are not compared. Template-created realms are covered by C11's harness, not here.")
 
+CLI = ("The client library is specified in spec/Cli.tla as an atomic machine over the awaiting-reply table, the handler tables and the running invocations (one action per "
+       "stimulus: API call started by an application goroutine, message from the router, context cancellation, handler returning, time, Close), and its goroutine "
+       "skeleton (reply hand-off by rendezvous, response timer, forced end of the receive loop) in the PlusCal module spec/CliConc.tla. Leg 1: TLC explores every interleaving "
+       "of CliConc for 2-3 application goroutines and repeated replies: own reply only, at most once, nothing left in the table, and under fairness Close returns, every API "
+       "call returns, the receive goroutine never stays stuck in a hand-over; the deviation that models the stranded-reply defect must be caught. Conformance: TLC -simulate of "
+       "GenCli.tla generates scripts; the harness plays the router on the other end of a linked peer inside a synctest bubble (virtual time: a reply can be scheduled for exactly "
+       "the instant a timeout fires) while real goroutines use the client API; returns of every API call, every message the client emits, every callback, Done() and the return "
+       "of Close are logged and the trace is validated by TLC against TraceCli.tla (both outcomes of a coincidence are behaviours; request ids are predicted: 1, 2, 3, ...). ")
+TEXT["C16"] = dict(ref="DESIGN.md 4 C16", technique="TLC model checking of the PlusCal client skeleton (CliConc.tla) + TLC-generated client scripts executed against the real client with a scripted router + TLC trace validation (TraceCli.tla)",
+    level=CLI + "For C16 the scripts mix concurrent Subscribe/Unsubscribe/Register/Unregister/acknowledged Publish/Call from four goroutines with replies in any order, late, duplicated, of the wrong type, "
+    "for unknown ids and at the timeout instant; progressive results with and without a progress handler; context cancellation followed by ERROR, by other replies, by nothing; INVOCATIONs with fresh, "
+    "old and unknown ids, with timeouts, INTERRUPTs in any order, handlers answering or not.",
+    note="Bounded: 4 application goroutines, 2 topics, 2 procedures, scripts of <= 18 steps, response timeouts 200/1000 ms. Trusted: TLC, the scripted router and result classification in "
+    "harness/client_test.go, testing/synctest. If the router never answers a CANCEL the reply-timeout error is what the call returns (statement's first sentence). CallProgressive, SendProgress and payload "
+    "passthru on the sending side are not generated. Schedules inside a step are those of the Go scheduler in the bubble; exhaustive interleavings only on CliConc.tla.")
+TEXT["C17"] = dict(ref="DESIGN.md 4 C17", technique="TLC enumeration of hostile router messages (Hostile.tla) and TLC-generated scripts with hostile steps, disconnects and Close, executed against the real client in isolated workers + TLC trace validation (TraceCli.tla) + TLC model checking of CliConc.tla",
+    level=CLI + "For C17 every mutant of spec/Hostile.tla (router-to-client message template x detail/field position x value kind, wrong-role and unknown message types, with and without an abrupt "
+    "disconnect) is sent to a client that holds a subscription, a registration and a pending progressive call; afterwards an event, an invocation, the call's results and a publish must work exactly per "
+    "Cli.tla and Close must return leaving no client goroutine and no blocked API call; generated scripts add repeated INVOCATIONs of a running invocation, replies at the instant of a timeout, GOODBYE/ABORT/"
+    "transport loss at any point and Close with and without a router answer. A dead worker (panic) or a Close that never returns is the crash verdict.",
+    note="Bounded as C16. Hostile ids are drawn from a reserved range; what the client answers to a hostile message under that message's own id is not compared (only that everything else still works). "
+    "Byte-level hostility needs a serializer and belongs to the transport family (C15). Structural enumeration, not all messages.")
+
 NOT_APPLICABLE = {}
 
 ENGINES = [
+    {"name": "client", "path": "/verif/tools/fam_client.py; spec/Cli.tla GenCli.tla TraceCli.tla CliConc.tla Hostile.tla; harness/client_test.go",
+     "serves_properties": ["C16", "C17"], "kind_free_text": "TLC model checking of the PlusCal client skeleton, TLC script generation, execution against the real client with a scripted router under synctest, TLC trace validation"},
     {"name": "funcs", "path": "/verif/tools/fam_funcs.py; spec/URI.tla IDs.tla MCFuncs.tla Funcs.tla; harness/funcs_test.go",
      "serves_properties": ["C19"], "kind_free_text": "TLA+ reference rules, exhaustive bounded input enumeration on the real functions, TLC validation of the logged applications"},
     {"name": "hostile", "path": "/verif/tools/families.py run_hostile; spec/Hostile.tla; harness/exec.go hostile()",
